@@ -4,7 +4,7 @@ import YaegiVerif.Expected.C09
 import YaegiVerif.Generated.C09
 /- Line-protocol front end for C09 (glue, not a proof obligation).
 
-   run B K ENTRY…      → y=<outcome> g=<outcome>
+   run B K ENTRY…      → y=<outcome> y2=<outcome> g=<outcome> dom=<0|1> racy=<0|1>
      B      budget of fresh operations after the cancellation (a goroutine that wants more is parked: `R`)
      K      number: the cancellation happens when operation K (counted over all goroutines, under the
             newest-first policy) has passed its guard and is about to execute; `quiet`: when nothing moves any more
@@ -13,7 +13,13 @@ import YaegiVerif.Generated.C09
    outcome = n<ops before the cancellation>;<ret>;<per goroutine that ever executed an operation, in creation order>
              per goroutine: i<in-flight operations 0/1>f<fresh operations>t<host calls after the cancellation><E|S|R>
              (E exited, S still blocked, R still wants to run)
-   y= is the machine with the facts extracted from the source, g= the machine with the ideal facts (the property). -/
+   y= is the machine with the facts extracted from the source, g= the machine with the ideal facts (the property).
+   y2= is y with the one race the step hook cannot decide taken the other way: after the cancellation a goroutine
+   just started by a `go` statement makes its frame BEFORE the goroutine of `Execute` goes on (and returns, which
+   refreshes the root id) instead of after; racy=1 says that the goroutine of `Execute` has a `go` statement of a
+   function value in flight at the cancellation, the only situation in which the harness accepts y2 as well.
+   dom= is `Props.C09.Dom` (no call / go of a function value caught between its guard and its frame) at the
+   moment of the cancellation: the class label of F09-3 is its negation. -/
 namespace YaegiVerif.Driver.C09
 open YaegiVerif YaegiVerif.RunId
 
@@ -59,25 +65,43 @@ def newestAllowed (gs : List G) (inflight : List Nat) (freshLeft : Nat) : Option
   go gs 0 none
 
 /-- after the cancellation: in-flight operations always execute, fresh ones while the budget lasts -/
-def post (F : RunIdFacts) (fs : Nat) : Nat → St → List Nat → Nat → St
-  | 0, σ, _, _ => settleAll F σ fs
+def post (F : RunIdFacts) (fs : Nat) (newFirst : Bool) : Nat → St → List Nat → Nat → St
+  | 0, σ, _, _ => settleAll F σ fs newFirst
   | fuel + 1, σ, inflight, freshLeft =>
-    let σ1 := settleAll F σ fs
+    let σ1 := settleAll F σ fs newFirst
     match newestAllowed σ1.gs inflight freshLeft with
     | none => σ1
     | some i =>
-      if inflight.contains i then post F fs fuel (stepC F σ1 (.run i)) (inflight.erase i) freshLeft
-      else post F fs fuel (stepC F σ1 (.run i)) inflight (freshLeft - 1)
+      if inflight.contains i then post F fs newFirst fuel (stepC F σ1 (.run i)) (inflight.erase i) freshLeft
+      else post F fs newFirst fuel (stepC F σ1 (.run i)) inflight (freshLeft - 1)
 
 def entriesSize (es : List Entry) : Nat := es.foldl (fun n e => n + e.prog.size + 1) 0
 
 def statusOf (σ : St) (g : G) : String :=
   if g.blocked.isSome then "S"
   else if g.armed then "R"
-  else if g.stack.isEmpty && (!g.main || σ.runList.isEmpty) then "E"
+  else if g.stack.isEmpty && g.pending.isNone && (!g.main || σ.runList.isEmpty) then "E"
   else "R"
 
-def outcome (F : RunIdFacts) (budget : Nat) (k : Option Nat) (entries : List Entry) : String :=
+/-- the state at the moment of the cancellation (operation K has passed its guard), or none if there is no such moment -/
+def atCancel (F : RunIdFacts) (k : Option Nat) (entries : List Entry) : Option (St × Nat) :=
+  let fs := entriesSize entries + 8
+  let σ0 := start F 0 0 entries
+  let pre := match k with
+    | some k => runPolicy F fs (k - 1) σ0
+    | none => runPolicy F fs (entriesSize entries + 1) σ0
+  if k.isSome && (pickNewest pre.1.gs).isNone then none
+  else if k.isNone && (pickNewest pre.1.gs).isSome then none
+  else some pre
+
+/-- the goroutine of `Execute` has a `go` statement of a function value in flight -/
+def racyAt (F : RunIdFacts) (σ : St) : Bool :=
+  σ.gs.any (fun g => g.main && g.armed &&
+    (match g.stack with
+     | fr :: _ => (match fr.pc with | .spawn s _ _ => fvSite F s | _ => false)
+     | [] => false))
+
+def outcome (F : RunIdFacts) (budget : Nat) (k : Option Nat) (entries : List Entry) (newFirst : Bool := false) : String :=
   let fs := entriesSize entries + 8
   let σ0 := start F 0 0 entries
   let pre := match k with
@@ -90,7 +114,7 @@ def outcome (F : RunIdFacts) (budget : Nat) (k : Option Nat) (entries : List Ent
   else
     let inflight := (List.range σ1.gs.length).filter (fun i => armedOf σ1 i)
     let σ2 := stepC F σ1 .stop
-    let σ3 := post F fs (inflight.length + budget + 1) σ2 inflight budget
+    let σ3 := post F fs newFirst (inflight.length + budget + 1) σ2 inflight budget
     let ret := match σ3.ret with | some .ctxErr => "ctx" | some .value => "val" | none => "none"
     let per := (List.range σ3.gs.length).filterMap (fun i =>
       match σ3.gs[i]? with
@@ -112,7 +136,11 @@ def handle (args : List Sexp) : String :=
          | .atom "quiet" => some none
          | _ => (k.nat?).map some
        (match kk with
-        | some kv => s!"y={outcome Generated.C09.facts budget kv es} g={outcome Expected.C09.ideal budget kv es}"
+        | some kv =>
+          let σ1 := atCancel Generated.C09.facts kv es
+          let dom := match σ1 with | some p => p.1.gs.all (fun g => !g.fvPending Generated.C09.facts) | none => true
+          let racy := match σ1 with | some p => racyAt Generated.C09.facts p.1 | none => false
+          s!"y={outcome Generated.C09.facts budget kv es} y2={outcome Generated.C09.facts budget kv es true} g={outcome Expected.C09.ideal budget kv es} dom={if dom then 1 else 0} racy={if racy then 1 else 0}"
         | none => "bad-op")
      | _, _ => "bad-op")
   | _ => "bad-op"
